@@ -9,6 +9,7 @@
 #
 import datetime
 import importlib
+from copy import copy
 from collections.abc import Iterator, Sequence, Callable
 from functools import cached_property
 from types import ModuleType
@@ -353,7 +354,15 @@ class XPathContext:
         """
         if varnames is None:
             varnames = []
-        iterators = [x(self) for x in selectors]
+
+        def start(index: int) -> Iterator[Any]:
+            # A range expression is evaluated with the variable bindings in scope where
+            # its iteration starts, not with the later bindings of the following variables.
+            context = copy(self)
+            context.variables = self.variables.copy()
+            yield from selectors[index](context)
+
+        iterators = [start(k) for k in range(len(selectors))]
         dimension = len(iterators)
         prod = [None] * dimension
         max_index = dimension - 1
@@ -375,7 +384,7 @@ class XPathContext:
             else:
                 if not k:
                     return
-                iterators[k] = selectors[k](self)
+                iterators[k] = start(k)
                 k -= 1
 
     ##
